@@ -130,7 +130,7 @@ def main():
         'engines': [{'name': 'sa', 'path': 'sa/', 'serves_properties': [c['property_id'] for c in checks],
                      'kind_free_text': 'repo-specific static analysis over Python ast: abstract interpreter / partial evaluator with a symbolic term domain, struct-format algebra, interval, may-raise, effect and loop-progress analyses; spec tables in spec/'}],
         'checks': checks,
-        'notes': 'Static analysis only: no check imports or executes pamqp. Exit 0 = held, 1 = VIOLATION, 2 = ANALYSIS-ERROR (fail closed). See DESIGN.md.',
+        'notes': 'Static analysis only: no check imports or executes pamqp. Exit 0 = held, 1 = VIOLATION, 2 = ANALYSIS-ERROR (fail closed). When the package contains assert statements every check also analyses the program as python -O runs it (asserts removed); C07 and C09 also as python -bb runs it (str() of bytes raises); differences are reported tagged with the reading. Each check also covers the clauses added while building (DESIGN.md section 5 "Added while building", Appendix G). See DESIGN.md.',
         'not_applicable': na,
     }
     json.dump(m, open(os.path.join(HERE, 'MANIFEST.json'), 'w'), indent=1)
